@@ -198,9 +198,23 @@ def arrive(ctx):
                    "(an arrival that completes the generation releases nobody)", fn=top.label, inst=f.qname)
             if not in_cond:
                 continue
-            tb = blk.succs[0]
-            tblk = f.blocks[tb]
-            tstm = [f.stmts[e["s"]] for e in tblk.elems if e["k"] == "S"]
+            # which side of the test is "the generation is complete" (count_ reached zero)?
+            c_ = unwrap(f, cond)
+            neg_ = False
+            while c_ is not None and c_["k"] == "UnaryOperator" and c_["op"] == "!":
+                neg_ = not neg_
+                c_ = unwrap(f, f.children(c_)[0])
+            rel_true = True
+            if c_ is not None and c_["k"] == "BinaryOperator" and c_["op"] in (">", "!=", ">="):
+                rel_true = False          # `--count_ > 0`: the release is the other side
+            if neg_:
+                rel_true = not rel_true
+            tb = blk.succs[0 if rel_true else 1]
+            if tb is None:
+                ctx.ob(rid, False, f.loc(d), "the release side of the arrival test is reachable", "", fn=top.label, inst=f.qname)
+                continue
+            # everything that runs only on the release side: the blocks that side's first block dominates
+            tstm = [f.stmts[e["s"]] for b_ in f.blocks if f.dominates_block(tb, b_) for e in f.blocks[b_].elems if e["k"] == "S"]
             bump = any(s["k"] == "UnaryOperator" and s["op"] == "++" and path(f, f.children(s)[0]) == "this.generation_"
                        for s in tstm)
             reset = any(s["k"] == "BinaryOperator" and s["op"] == "=" and path(f, f.children(s)[0]) == "this.count_"
